@@ -1,4 +1,5 @@
 import Xp.Gen.C15Tables
+import Xp.Gen.C15Skel
 /-
 C15 model: what a package revision installs.
 
@@ -114,6 +115,56 @@ def lint (t : PType) (p : Pkg) : Bool :=
   p.metas.all (fun m => (lintMetaKinds t).contains m.gvk && m.con != .malformed) &&
   p.objs.all (fun o => (lintObjKinds t).contains o.gvk)
 
+/-! ### the linters as lint.go composes them (structure regenerated by go/ast)
+
+`parser.NewPackageLinter(pre, perMeta, perObject).Lint` (crossplane-runtime) runs every
+package check, then every meta check on every meta object, then every object check on every
+object; `parser.Or(a, b, …)` passes when one of its members does.  Which checks each
+constructor passes is `Xp.Gen.c15Lint*` (read from the source of New*Linter), what a check
+accepts is `Xp.Gen.c15CheckAccepts` (the real function called on a fresh object of every
+scheme kind); `PackageValidSemver` additionally looks at the constraints. -/
+
+def lintPkgFns : PType → List String
+  | .provider => Xp.Gen.c15LintProviderPkg
+  | .configuration => Xp.Gen.c15LintConfigurationPkg
+  | .function => Xp.Gen.c15LintFunctionPkg
+
+def lintMetaFns : PType → List String
+  | .provider => Xp.Gen.c15LintProviderMeta
+  | .configuration => Xp.Gen.c15LintConfigurationMeta
+  | .function => Xp.Gen.c15LintFunctionMeta
+
+def lintObjFns : PType → List (List String)
+  | .provider => Xp.Gen.c15LintProviderObj
+  | .configuration => Xp.Gen.c15LintConfigurationObj
+  | .function => Xp.Gen.c15LintFunctionObj
+
+/-- the scheme kinds a check function accepts (an unknown check accepts nothing) -/
+def accepts (fn : String) : List String := (Xp.Gen.c15CheckAccepts.lookup fn).getD []
+
+/-- a package-level check: `OneMeta` (`len(pkg.GetMeta()) != 1`); any other name fails -/
+def pkgCheck (fn : String) (p : Pkg) : Bool :=
+  if fn == "OneMeta" then p.metas.length == 1 else false
+
+/-- a check run on a meta object: the kind is one the function accepts; `PackageValidSemver`
+also parses the constraints (`semver.NewConstraint`) -/
+def metaCheck (fn : String) (m : Meta) : Bool :=
+  (accepts fn).contains m.gvk && (fn != "PackageValidSemver" || m.con != .malformed)
+
+/-- the object checks of a linter on one kind: every `ObjectLinterFn` passes, an `Or` when one member does -/
+def objKindOk (t : PType) (k : String) : Bool :=
+  (lintObjFns t).all fun d => d.any fun fn => (accepts fn).contains k
+
+def metaKindOk (t : PType) (k : String) : Bool :=
+  (lintMetaFns t).all fun fn => (accepts fn).contains k
+
+/-- `xpkg.New{Provider,Configuration,Function}Linter().Lint`, computed from the structure of
+the constructor -/
+def lintS (t : PType) (p : Pkg) : Bool :=
+  (lintPkgFns t).all (fun fn => pkgCheck fn p) &&
+  p.metas.all (fun m => (lintMetaFns t).all fun fn => metaCheck fn m) &&
+  p.objs.all (fun o => objKindOk t o.gvk)
+
 /-- `xpkg.PackageCrossplaneCompatible(versioner)` on the (single) meta object. -/
 def compatible (p : Pkg) : Bool :=
   p.metas.all fun m => m.con == .none || m.con == .inRange
@@ -155,6 +206,58 @@ def Cache.empty : Cache := fun _ => none
 def Cache.put (c : Cache) (k : String) (e : Entry) : Cache := fun k' => if k' = k then some e else c k'
 def Cache.erase (c : Cache) (k : String) : Cache := fun k' => if k' = k then none else c k'
 
+/-! ### the image: `ImageBackend.Init` (imageback.go) -/
+
+/-- the `io.crossplane.xpkg` annotation of a layer descriptor: absent, `base`, another value -/
+inductive Ann where
+  | none | base | other
+  deriving DecidableEq, Repr
+
+/-- one layer of an OCI image: its annotation and the `package.yaml` of its tarball, if it has one -/
+structure Layer where
+  ann : Ann
+  file : Option (List Doc)
+  deriving DecidableEq, Repr
+
+/-- `xpkg.StreamFile` (regenerated) -/
+def streamFile : String := Xp.Gen.c15StreamFile
+
+/-- the loop over the entries of the selected tarball (`t.Next()` until
+`h.Name == xpkg.StreamFile`): the FIRST entry named exactly `package.yaml`; entries of any
+other name – `.package.yaml`, `package.yaml.bak`, `dir/package.yaml` – are passed over -/
+def tarFind : List (String × List Doc) → Option (List Doc)
+  | [] => none
+  | (n, ds) :: es => if n == streamFile then some ds else tarFind es
+
+/-- a layer, given the entries of its tarball -/
+def Layer.ofTar (ann : Ann) (entries : List (String × List Doc)) : Layer := ⟨ann, tarFind entries⟩
+
+/-- `maxLayers` of imageback.go (regenerated) -/
+def maxLayers : Nat := Xp.Gen.c15MaxLayersN
+
+/-- the loop over `manifest.Layers`: layers not annotated `io.crossplane.xpkg: base` are
+skipped; a second annotated layer is an error (`none`); the state is `tarc` of the annotated
+layer found so far (`foundAnnotated` = `sel.isSome`) -/
+def scanBase : List Layer → Option Layer → Option (Option Layer)
+  | [], sel => some sel
+  | l :: ls, sel =>
+    if l.ann != .base then scanBase ls sel
+    else if sel.isSome then none
+    else scanBase ls (some l)
+
+/-- `mutate.Extract`: the flattened file system, later layers override earlier ones -/
+def flatFile (ls : List Layer) : Option (List Doc) := ls.reverse.findSome? (·.file)
+
+/-- `ImageBackend.Init` on a fetched image: the package stream it hands to the parser
+(`none`: an error – too many layers, two annotated base layers, no package.yaml in the
+tarball it selected). -/
+def initSel (ls : List Layer) : Option (List Doc) :=
+  if ls.length > maxLayers then none
+  else match scanBase ls none with
+    | none => none
+    | some (some l) => l.file       -- the annotated base layer only; `t.Next()` fails when it has no package.yaml
+    | some none => flatFile ls
+
 /-! ### revisions -/
 
 structure Rev where
@@ -162,11 +265,16 @@ structure Rev where
   key : String     -- cache path of the revision's name
   skey : String    -- cache path of the revision's source (pull policy Never)
   source : String := ""  -- spec.package, the image reference (what ImageConfig prefixes are matched against)
-  docs : List Doc  -- package stream of the image the source resolves to
-  imgOk : Bool     -- ImageBackend.Init finds the stream (one annotated base layer, or none and a flattened fs, holding package.yaml)
+  layers : List Layer  -- the image the source resolves to
   never : Bool     -- packagePullPolicy: Never
   ignore : Bool    -- ignoreCrossplaneConstraints
+  resolve : Bool := false  -- skipDependencyResolution is set and false: dependencies are resolved
   deriving Repr
+
+/-- the package stream of the image the source resolves to: what `ImageBackend.Init` selects -/
+def Rev.docs (r : Rev) : List Doc := (initSel r.layers).getD []
+/-- `ImageBackend.Init` finds a stream -/
+def Rev.imgOk (r : Rev) : Bool := (initSel r.layers).isSome
 
 /-- the id under which this revision looks for cached content -/
 def Rev.id (r : Rev) : String := if r.never then r.skey else r.key
@@ -252,6 +360,9 @@ structure Faults where
   fin : WErr := .ok       -- the Update issued by AddFinalizer / RemoveFinalizer
   stat : Bool := false    -- client.Status().Update(revision) fails
   env : Env := .none      -- third-party write between the read and the first write / stale cached read
+  pullCfg : Bool := false -- config.PullSecretFor fails (listing ImageConfigs)
+  rel : Upd := .ok        -- deactivateRevision: objects.ReleaseObjects (inactive revisions only)
+  dep : Upd := .ok        -- lock.Resolve (revisions that resolve dependencies only)
   deriving Repr
 
 /-- the object the reconciler holds is not the live one -/
@@ -348,7 +459,7 @@ structure Out where
 
 /-- Lint, one-meta check, metadata update, version gate, Establish (lines 778–931). -/
 def gates (r : Rev) (f : Faults) (st : RevSt) (p : Pkg) : RevSt × Out :=
-  if !lint r.ptype p then (setHealth f st .unhealthy, { res := "err:lint" })
+  if !lintS r.ptype p then (setHealth f st .unhealthy, { res := "err:lint" })
   else if p.metas.length != 1 then (setHealth f st .unhealthy, { res := "err:onemeta" })
   else match f.updO with
   | .conflict => (st, { res := "requeue" })
@@ -357,6 +468,9 @@ def gates (r : Rev) (f : Faults) (st : RevSt) (p : Pkg) : RevSt × Out :=
     if !r.ignore && !compatible p then
       -- SetConditions(Unhealthy); return Status().Update(...)
       (if f.statO then (st, { res := "err:status" }) else ({ st with health := .unhealthy }, { res := "ok" }))
+    else if r.resolve && f.dep != .ok then
+      -- lock.Resolve: IsConflict → requeue; else UnknownHealth, Status().Update ignored
+      (if f.dep == .conflict then (st, { res := "requeue" }) else (setHealth f st .unknown, { res := "err:deps" }))
     else if f.est then
       (if f.estConflict then (st, { res := "requeue", est := some p.objs, control := st.active })
        else (setHealth f st .unhealthy, { res := "err:establish", est := some p.objs, control := st.active }))
@@ -369,6 +483,18 @@ def install (fixed : Bool) (r : Rev) (f : Faults) (c : Cache) (st : RevSt) : Cac
   | (c', .stop res unhealthy) => (c', (if unhealthy then setHealth f st .unhealthy else st), { res := res })
   | (c', .parsed none) => (c', setHealth f st .unhealthy, { res := "err:parse" })
   | (c', .parsed (some p)) => let (st', o) := gates r f st p; (c', st', o)
+
+/-- What stops a reconcile between AddFinalizer and the source selection: `PullSecretFor`
+fails (Unhealthy is recorded: `true`), or – inactive revisions – `deactivateRevision` fails
+(`ReleaseObjects`; IsConflict → requeue; no condition is recorded). -/
+def early (f : Faults) (st : RevSt) : Option (String × Bool) :=
+  if f.pullCfg then some ("err:pullcfg", true)
+  else if !st.active then
+    match f.rel with
+    | .ok => none
+    | .conflict => some ("requeue", false)
+    | .err => some ("err:deactivate", false)
+  else none
 
 /-- One `revision.Reconciler.Reconcile` of revision `r`; `st` is the revision object the
 reconciler's `Get` returns. -/
@@ -395,6 +521,9 @@ def recStep (fixed : Bool) (feature : Bool) (r : Rev) (f : Faults) (c : Cache) (
     | .notFound => (c, st, { res := "err:finalizer" })
     | .err => (c, st, { res := "err:finalizer" })
     | .ok =>
+      match early f st with
+      | some e => (c, (if e.2 then setHealth f { st with finalizer := true } .unhealthy else { st with finalizer := true }), { res := e.1 })
+      | none =>
       if !st.active && st.refs > 0 then
         (if f.statO then (c, { st with finalizer := true }, { res := "err:status" })
          else (c, { st with finalizer := true, health := .healthy }, { res := "ok" }))
